@@ -47,6 +47,9 @@ BLOCKS = [
     N(b"Type=1", b"Path=/untitled", b"Host=h.example", b"Port=70"),
     N(b"Name=No Type", b"Path=/notype", b"Host=+", b"Port=+"),
     N(b"Name=Bare Path", b"Type=1", b"Path=/bare"),
+    # the two blocks whose every subset of lines (with the Path) is tried, forwards and backwards
+    N(b"Name=Rich New", b"Type=1", b"Path=/rich", b"Host=rich.example", b"Port=7071", b"Numb=4", b"Abstract=rich abstract"),
+    O(b"e.txt", b"Name=Rich Override", b"Type=1", b"Host=rich.example", b"Port=7071", b"Numb=4", b"Abstract=rich override"),
 ]
 
 
@@ -337,6 +340,17 @@ def run(ck):
             perms = [tuple(range(k)), tuple(reversed(range(k)))] + perms[7::23]
         for pm in perms:
             items.append(("perm", (i, pm), "nonencoded"))
+    nsub = 0
+    for i in (n - 2, n - 1):
+        lines = BLOCKS[i][2]
+        pi = next(k for k, l in enumerate(lines) if l.startswith(b"Path="))
+        others = [k for k in range(len(lines)) if k != pi]
+        for r in range(len(others) + 1):
+            for sub in itertools.combinations(others, r):
+                idx = tuple(sorted(sub + (pi,)))
+                for order in {idx, tuple(reversed(idx))}:
+                    items.append(("perm", (i, order), "nonencoded"))
+                    nsub += 1
     items.append(("links", (), "nonencoded"))
     if ck.seed:
         import random
@@ -344,7 +358,7 @@ def run(ck):
         random.Random(ck.seed).shuffle(items)
     ck.pmap(_shard, core.chunks(items, core.NPROC * 4))
     ck.rule = ("link files = single blocks (x 3 extension-stripping modes), all ordered pairs of %d block shapes in one file and split over two link files, ordered triples over %d of them, each override block as a .cap file alone and next to every other block, "
-               "and line permutations of every block (all 120 orders for the five-line new-entry block); pairs that set the same field of the same entry are left out (no documented precedence); distinct = (mode, extstrip, verdict, first block)" % (n, len(trip)))
+               "line permutations of every block (all 120 orders for the five-line new-entry block) and every subset of the lines of a seven-line new-entry block and a seven-line override block that keeps the Path (forwards and backwards); pairs that set the same field of the same entry are left out (no documented precedence); distinct = (mode, extstrip, verdict, first block)" % (n, len(trip)))
     ck.bounds = {"blocks": n, "cases": len(items)}
     ck.assumptions = ["the expected listing is the manual's reading applied on top of the same directory listed without metadata, so default types and names are taken from the server, not re-implemented",
                       "entries that tie on number and title may appear in either order; ill-formed blocks (empty Type=, non-numeric Port=) are not generated"]
